@@ -644,8 +644,15 @@ impl FileSystem for Vfs {
     fn id_remap_with_nodeid(&self, ctx: &mut Context, nodeid: Self::Inode) -> Result<()> {
         // Use the per-mount mapping identified by the fs_idx encoded in
         // nodeid, falling back to the global mapping for pseudo-fs
-        // operations (fs_idx == 0).
-        self.remap_ctx_ids(ctx, self.get_effective_id_mapping(nodeid.fs_idx()))
+        // operations (fs_idx == 0). Requests on the root inode are served by the
+        // file system mounted on "/" if there is one (see get_real_rootfs()).
+        let mut fs_idx = nodeid.fs_idx();
+        if nodeid.is_pseudo_fs() && nodeid.ino() == ROOT_ID {
+            if let Some(mnt) = self.mountpoints.load().get(&ROOT_ID) {
+                fs_idx = mnt.fs_idx;
+            }
+        }
+        self.remap_ctx_ids(ctx, self.get_effective_id_mapping(fs_idx))
     }
 
     #[cfg(any(feature = "vhost-user-fs", feature = "virtiofs"))]
